@@ -318,6 +318,39 @@ func witnessNoMidnight(c *core.Ctx) {
 	}
 }
 
+// famGroups: the (family time, rows) groups the real iterators hand out for a one-shard batch of rows r<i>.
+func famGroups(b *metric.BrokerBatchRows, iv timeutil.Interval) (out string) {
+	defer func() {
+		if recover() != nil {
+			out = "panic"
+		}
+	}()
+	var gs []string
+	it := b.NewShardGroupIterator(1)
+	for it.HasRowsForNextShard() {
+		_, fit := it.FamilyRowsForNextShard(iv)
+		for fit.HasNextFamily() {
+			ft, rs := fit.NextFamily()
+			var ids []int
+			for k := range rs {
+				fm := rs[k].Metric()
+				id, _ := strconv.Atoi(strings.TrimPrefix(string(fm.Name()), "r"))
+				ids = append(ids, id)
+			}
+			sort.Ints(ids)
+			p := make([]string, len(ids))
+			for k, id := range ids {
+				p[k] = strconv.Itoa(id)
+			}
+			gs = append(gs, fmt.Sprintf("%d:%s", ft, strings.Join(p, ",")))
+		}
+	}
+	if len(gs) == 0 {
+		return "groups -"
+	}
+	return "groups " + strings.Join(gs, " ")
+}
+
 func caseDSTFamilies(c *core.Ctx, r *rand.Rand) {
 	z := dstZones[r.Intn(len(dstZones))]
 	loc, err := time.LoadLocation(z.name)
@@ -383,6 +416,17 @@ func caseDSTFamilies(c *core.Ctx, r *rand.Rand) {
 		return fmt.Sprintf("zone %s, interval %dms, %d shards, rows %s", z.name, int64(iv), numShards, strings.Join(p, " "))
 	}
 	c.Branch("dst/" + z.name + "/" + string(iv.Type()))
+	if numShards == 1 {
+		// correspondence: the real family iterator over this one shard group against Route.familyGroupsCode,
+		// the calculator's answers for the batch's timestamps passed in (the model runs for ANY calculator,
+		// also one whose range excludes the timestamp it was computed from)
+		var ws []string
+		for _, s := range sentRows {
+			ft, rg := familyRange(iv, s.ts)
+			ws = append(ws, fmt.Sprintf("%d:%d:%d:%d", s.ts, ft, rg.Start, rg.End))
+		}
+		c.Op("famscan "+strings.Join(ws, " "), famGroups(b, iv))
+	}
 	if iv.Type() == timeutil.Month {
 		for _, s := range sentRows {
 			if _, rg := familyRange(iv, s.ts); noLocalMidnight(s.ts, loc) && !rg.Contains(s.ts) {
